@@ -73,6 +73,10 @@ S1 == << Doc("S1", "enum-odd-case", EnumS(<<JS(<<"r","e","d">>), JS(<<"R","E","D
          Doc("S1", "enum-keywords", EnumS(<<JS(<<"t","y","p","e">>), JS(<<"i","m","p","l">>), JS(<<"S","e","l","f">>)>>)),
          Doc("S1", "newtype-plain", SStr),
          Doc2("S1", "alias-plain", SRef("N"), "N", SStr),
+         (* aliases of generated string types: the alias newtype proxies its conversions *)
+         Doc2("S1", "alias-enum", SRef("N"), "N", EnumS(<<JS(<<"r","e","d">>), JS(<<"g">>)>>)),
+         Doc2("S1", "alias-constrained", SRef("N"), "N", [type |-> "string", minLength |-> 2, maxLength |-> 3]),
+         Doc2("S1", "alias-pattern", SRef("N"), "N", [type |-> "string", pattern |-> "^a+$"]),
          Doc("S1", "untagged-strs", SOneOf(<< [type |-> "string", format |-> "uuid"], [type |-> "string", format |-> "ipv4"] >>)),
          Doc2("S1", "untagged-newtypes", SOneOf(<< SRef("A"), SRef("B") >>) @@ << >>, "A", [type |-> "string", pattern |-> "^a+$"]),
          Doc("S1", "untagged-same-type-twice", SOneOf(<< Titled([type |-> "string", format |-> "uuid"], "Id"),
